@@ -88,7 +88,7 @@ def _apply(repo: Path, scratch: Path, variant: Variant) -> Optional[str]:
         import subprocess
         r = subprocess.run(['git', 'apply', variant.patch], cwd=scratch, capture_output=True, text=True)
         if r.returncode != 0:
-            r = subprocess.run(['patch', '-p1', '--fuzz=3', '-s', '-i', variant.patch], cwd=scratch, capture_output=True, text=True)
+            r = subprocess.run(['patch', '-p1', '--fuzz=0', '-s', '-i', variant.patch], cwd=scratch, capture_output=True, text=True)
         if r.returncode != 0:
             return 'the seeded patch no longer applies to this tree'
         return None
